@@ -186,7 +186,7 @@ impl ResolvedRoundingOptions {
 
         // 4. Let resolvedOptions be ? SnapshotOwnProperties(? GetOptionsObject(options), null).
         // 5. Let settings be ? GetDifferenceSettings(operation, resolvedOptions, DATE, « », "day", "day").
-        unit_group.validate_unit(options.largest_unit, None)?;
+        unit_group.validate_unit(options.largest_unit, Some(Unit::Auto))?;
         // 3. If disallowedUnits contains largestUnit, throw a RangeError exception.
         // 4. Let roundingIncrement be ? GetRoundingIncrementOption(options).
         let increment = options.increment.unwrap_or_default();
